@@ -11,29 +11,29 @@
 EXTENDS HistoryConc, Json
 CONSTANT TraceFile
 Trace == ndJsonDeserialize(TraceFile)
-VARIABLES l, bad, lost, nq      \* nq: how many runs the query of the current scenario asks for
+VARIABLES l, bad, lost, qfind, nq      \* nq: how many runs the query of the current scenario asks for
 E == Trace[l]
-tvars == <<vars, l, bad, lost, nq>>
+tvars == <<vars, l, bad, lost, nq, qfind>>
 
 Reset == /\ disk' = [f \in Runs \X Kinds |->
                        IF f[1] < R /\ f[2] = "comp" THEN [exists |-> TRUE, st |-> f[1]]
                        ELSE IF f[1] = R /\ f[2] = "orig" THEN [exists |-> TRUE, st |-> R] ELSE NoFile]
          /\ rpc' = "open" /\ qpc' = "idle" /\ qfiles' = <<>> /\ qacc' = <<>> /\ relists' = 0 /\ valid' = {} /\ answer' = <<>>
-         /\ lost' = FALSE /\ nq' = E.n
+         /\ lost' = FALSE /\ nq' = E.n /\ qfind' = (E.query = "find")
 \* the query's steps, the branch taken from the trace
 TList == /\ qpc = "idle" /\ qpc' = "iter"
-         /\ qfiles' = Listing(disk, R + 1) /\ qacc' = <<>> /\ relists' = 0 /\ valid' = {Top(disk, R + 1, nq)}
+         /\ qfiles' = Listing(disk, R + 1) /\ qacc' = <<>> /\ relists' = 0 /\ valid' = {AbstractOf(disk, nq, qfind)}
          /\ UNCHANGED <<disk, rpc, answer>>
 TVisitOK(e) == qpc = "iter" /\ qfiles # <<>> /\ Head(qfiles) = <<e.run, e.kind>>
 TVisit == LET f == Head(qfiles) IN
           /\ qfiles' = Tail(qfiles) /\ UNCHANGED relists
-          /\ qacc' = IF disk[f].exists /\ disk[f].st # 0 /\ ~InAcc(disk[f].st) THEN Append(qacc, disk[f].st) ELSE qacc
+          /\ qacc' = IF disk[f].exists /\ Takes(disk[f].st, qfind) /\ ~InAcc(disk[f].st) THEN Append(qacc, disk[f].st) ELSE qacc
           /\ UNCHANGED <<disk, rpc, qpc, valid, answer>>
 TRelist == /\ qfiles' = Listing(disk, R + 1) /\ qacc' = <<>> /\ relists' = relists + 1
            /\ UNCHANGED <<disk, rpc, qpc, valid, answer>>
 TReturn == /\ qpc' = "done" /\ answer' = qacc /\ UNCHANGED <<disk, rpc, qfiles, qacc, relists, valid>>
 TRec(d2, pc2) == /\ disk' = d2 /\ rpc' = pc2
-                 /\ valid' = IF qpc = "iter" THEN valid \cup {Top(d2, R + 1, nq)} ELSE valid
+                 /\ valid' = IF qpc = "iter" THEN valid \cup {AbstractOf(d2, nq, qfind)} ELSE valid
                  /\ UNCHANGED <<qpc, qfiles, qacc, relists, answer>>
 Enabled(e) ==
   CASE e.a = "list"    -> qpc = "idle"
@@ -62,16 +62,16 @@ Judge(e) == IF e.a # "return" THEN {}
                  \cup (IF ~\E i \in DOMAIN e.answer : e.answer[i] >= R THEN {"C06_ClosingRunMissing"} ELSE {})
                  \cup (IF e.answer # qacc THEN {"DRIFT_ConcAnswerDiffers"} ELSE {})
 Say(c) == PrintT("VERDICT " \o ToJson([line |-> l, scen |-> E.scen, viol |-> c, rec |-> E]))
-TInit == Init /\ l = 1 /\ bad = 0 /\ lost = FALSE /\ nq = 1
+TInit == Init /\ l = 1 /\ bad = 0 /\ lost = FALSE /\ nq = 1 /\ qfind = FALSE
 TNext ==
   /\ l <= Len(Trace) /\ l' = l + 1
   /\ LET e == E IN
      IF e.ev = "Reset" THEN Reset /\ UNCHANGED bad
-     ELSE IF e.ev = "Infra" THEN UNCHANGED <<vars, lost, nq>> /\ bad' = bad + 1 /\ Say({"INFRA"})
-     ELSE IF lost THEN UNCHANGED <<vars, lost, bad, nq>>
+     ELSE IF e.ev = "Infra" THEN UNCHANGED <<vars, lost, nq, qfind>> /\ bad' = bad + 1 /\ Say({"INFRA"})
+     ELSE IF lost THEN UNCHANGED <<vars, lost, bad, nq, qfind>>
      ELSE IF ~Enabled(e)
-       THEN UNCHANGED <<vars, nq>> /\ lost' = TRUE /\ bad' = bad + 1 /\ Say({"DRIFT_ConcStepNotInSpec"})
-       ELSE /\ Act(e) /\ UNCHANGED <<lost, nq>>
+       THEN UNCHANGED <<vars, nq, qfind>> /\ lost' = TRUE /\ bad' = bad + 1 /\ Say({"DRIFT_ConcStepNotInSpec"})
+       ELSE /\ Act(e) /\ UNCHANGED <<lost, nq, qfind>>
             /\ LET c == Judge(e) IN IF c = {} THEN UNCHANGED bad ELSE bad' = bad + 1 /\ Say(c)
 TSpec == TInit /\ [][TNext]_tvars
 Emit == (l = Len(Trace) + 1) => PrintT("CONSUMED " \o ToString(Len(Trace)) \o " bad " \o ToString(bad))
